@@ -73,15 +73,19 @@ pub fn check(tree: &Expr, acc: &mut Acc) {
 }
 
 pub fn check_with(tree: &Expr, threads: Option<u32>, acc: &mut Acc) {
+    check_opts(tree, false, threads, acc)
+}
+
+pub fn check_opts(tree: &Expr, depth: bool, threads: Option<u32>, acc: &mut Acc) {
     acc.states += 1;
     acc.transitions += 1;
     acc.validated += 1;
-    let wit = || json!({"kind": "tree", "tree": tree, "threads": threads});
+    let wit = || json!({"kind": "tree", "tree": tree, "threads": threads, "depth": depth});
     let real = match conv::expr_to_real(tree) {
         Some(r) => r,
         None => return,
     };
-    let (text, io) = match compile_render(&real, &subject::options(false, threads), "/dev") {
+    let (text, io) = match compile_render(&real, &subject::options(depth, threads), "/dev") {
         C::Ok(v) => v,
         C::Err(e) => {
             acc.violate(Violation::new("C10:compile-refused", format!("{}: {e}", tree.show()), wit()));
@@ -244,11 +248,13 @@ pub fn run(ctx: &Ctx) -> i32 {
                 for th in [1u32, 2, 16] {
                     check_with(&chain(&items), Some(th), acc);
                 }
+                check_opts(&chain(&items), true, None, acc);
+                check_opts(&chain(&items), true, Some(1), acc);
             }
         }));
     }
     // many destinations
-    let ns: Vec<usize> = if ctx.tier == Tier::Quick { vec![1, 2, 3, 27, 28, 29, 30, 31, 64, 127, 128, 129, 255, 256, 257, 300] } else { (1..=300).collect() };
+    let ns: Vec<usize> = (1..=300).collect();
     let fam = par_cases(ns.len() as u64 * 3, |i, acc| {
         let n = ns[(i / 3) as usize];
         let kind = i % 3;
@@ -303,7 +309,7 @@ pub fn run(ctx: &Ctx) -> i32 {
             level: "model_checking",
             exhaustive: true,
             rule: "state = ordered sequence of actions (AND chain; for <= 3 actions also 7 placements under !/OR/',' with forcing constants); compiled by the real compile(); mode = presence of io_map() checked against the rule; the policy is executed once in the runtime model, the shared port's character stream decoded into frames through io_map() and compared frame by frame with the executed actions; table entries must be exactly the (destination, terminator) pairs of the tree's actions, one tag each; distinct = distinct (decoded output, table) pairs".into(),
-            bound: format!("every sequence of 1..{maxn} items over 13 output actions + -quit + -true; 1- and 2-item sequences also under -threads 1, 2, 16; file names /dev/stdout, /dev/stderr, /dev/null, /dev/fd/1, -, and names containing the separator or a tag character; destination families of size {}", if ctx.tier == Tier::Quick { "1..3, 27..31, 64, 127..129, 255..257, 300" } else { "1..300" }),
+            bound: format!("every sequence of 1..{maxn} items over 13 output actions + -quit + -true; 1- and 2-item sequences also under -threads 1, 2, 16 and under -depth; file names /dev/stdout, /dev/stderr, /dev/null, /dev/fd/1, -, and names containing the separator or a tag character; destination families of size {}", if ctx.tier == Tier::Quick { "1..3, 27..31, 64, 127..129, 255..257, 300" } else { "1..300" }),
             assumptions: vec![
                 "runtime model of DESIGN.md §3: print-file-fid writes directly to the current output port".into(),
                 "a format list that is empty is outside the alphabet (the rule 'last element is not a newline escape' does not decide it)".into(),
@@ -316,7 +322,7 @@ pub fn run(ctx: &Ctx) -> i32 {
 pub fn replay(w: &Value) -> Vec<Violation> {
     let mut acc = Acc::new();
     if let Ok(t) = serde_json::from_value::<Expr>(w["tree"].clone()) {
-        check_with(&t, w["threads"].as_u64().map(|t| t as u32), &mut acc);
+        check_opts(&t, w["depth"].as_bool().unwrap_or(false), w["threads"].as_u64().map(|t| t as u32), &mut acc);
     }
     acc.violations.into_values().map(|(v, _)| v).collect()
 }
